@@ -333,6 +333,27 @@ def _fork_bool(self):
 z3.ExprRef.__bool__ = _fork_bool
 
 
+def concretize(x, lo=0, hi=64):
+    """a concrete value for a symbolic integer (an array size, a split point) by forking over its possible values; the solver
+    is asked at every candidate, so only values the inputs can produce become paths"""
+    sx = z3.simplify(x) if isinstance(x, z3.ExprRef) else x
+    if not isinstance(sx, z3.ExprRef):
+        return int(sx)
+    if z3.is_int_value(sx):
+        return sx.as_long()
+    if not FC.active:
+        raise Unsupported("a size depends on symbolic data outside a forking run (enumerate what determines it)")
+    saved = FC.prune
+    FC.prune = True
+    try:
+        for k in range(lo, hi + 1):
+            if bool(sx == k):
+                return k
+    finally:
+        FC.prune = saved
+    raise Unsupported(f"symbolic size outside [{lo}, {hi}]")
+
+
 def run_paths(fn, feasible=None, prune=False):
     """run fn once per decision vector; returns [(path condition list, result, runtime)].
     prune=True asks the solver at every new branch point whether both outcomes are possible (costs two small queries per
